@@ -2,6 +2,7 @@ package colvet
 
 import (
 	"fmt"
+	"go/token"
 	"sort"
 	"strings"
 
@@ -472,4 +473,235 @@ func timeSource(ch ssa.Value) (string, ssa.Value) {
 		}
 	}
 	return "", nil
+}
+
+// ---------------------------------------------------------------------------------------------
+// Rules added after seed round 6 (changes that add no state).
+
+// rulePairLoopCallsBack (C04.blocks/…rangeReadPair/every-block): rangeReadPair hands every block to
+// its callback. Its callbacks are not all narrowing: Union joins (dst.Or(src)), so a block whose
+// selection is empty *now* is exactly where rows have to be added; a fast path that skips such
+// blocks is equivalent for With/Without and wrong for Union.
+func rulePairLoopCallsBack(r *Report) {
+	h := r.Rule("C04.blocks", "P", "", 3)
+	fn := r.Anchor("(*column.Txn).rangeReadPair")
+	if fn == nil {
+		return
+	}
+	if len(callsToDeep(fn, false, "(*column.Txn).rangeRead")) > 0 {
+		return // delegates the iteration: nothing of its own to skip
+	}
+	ok, n := true, 0
+	for _, f := range deepFuncs(fn) {
+		for _, cb := range userCallIn(f) {
+			n++
+			b := cb.Block()
+			if !reachAvoiding(b, b, nil, nil) {
+				continue // not inside a loop of this function (a per-block closure of a shared helper)
+			}
+			// some block of the cycle that can reach the callback can also get back to itself
+			// without passing the callback: an iteration that skips it
+			for _, hd := range f.Blocks {
+				if hd == b || !reachAvoiding(hd, b, nil, nil) || !reachAvoiding(b, hd, nil, nil) {
+					continue
+				}
+				if reachAvoiding(hd, hd, func(x *ssa.BasicBlock) bool { return x == b }, nil) {
+					ok = false
+				}
+			}
+		}
+	}
+	h.Check(ok && n > 0, "(*column.Txn).rangeReadPair/every-block", r.P.Pos(fn.Pos()), "the callback is invoked in every iteration of the block loop", "an iteration of rangeReadPair's block loop can complete without invoking the callback (a `continue` for blocks whose selection is empty, say): Union, which adds rows through this loop, loses the rows of those blocks")
+}
+
+// ruleSerialisersReadOnly (C05.readonly): WriteTo does not write what it serialises. Neither
+// Commit.WriteTo nor Buffer.WriteTo (helpers and closures included) stores into a field of the
+// receiver, into an element of a slice held in such a field, or appends onto a reslice of one
+// (`c.Updates[:0]` shares the backing array with the caller's slice: the transaction hands the same
+// Updates slice to the logger once per block).
+func ruleSerialisersReadOnly(r *Report) {
+	h := r.Rule("C05.readonly", "def-use", "serialising leaves the value unchanged: WriteTo neither stores into the receiver's fields, nor into elements of its slices, nor appends onto a reslice of one of them", 2)
+	for _, name := range []string{"(*commit.Commit).WriteTo", "(*commit.Buffer).WriteTo"} {
+		fn := r.Anchor(name)
+		if fn == nil || len(fn.Params) == 0 {
+			continue
+		}
+		typ := "commit.Commit"
+		if strings.Contains(name, "Buffer") {
+			typ = "commit.Buffer"
+		}
+		bad := ""
+		// slices that share memory with a field of the value being written
+		fromField := func(v ssa.Value) bool {
+			return dependsOnSlice(v, func(x ssa.Value) bool {
+				fr, ok := loadedField(x)
+				return ok && fr.Struct == typ
+			}, 6)
+		}
+		for _, f := range deepFuncs(fn) {
+			allInstrs(f, func(ins ssa.Instruction) {
+				switch x := ins.(type) {
+				case *ssa.Store:
+					if fr, ok := fieldOf(x.Addr); ok && fr.Struct == typ {
+						bad = fmt.Sprintf("%s stores into %s.%s", r.P.InstrPos(ins), typ, fr.Field)
+					}
+					if ia, ok := x.Addr.(*ssa.IndexAddr); ok && fromField(ia.X) {
+						bad = fmt.Sprintf("%s stores into an element of a slice of the value", r.P.InstrPos(ins))
+					}
+				case *ssa.Call:
+					if b, ok := x.Call.Value.(*ssa.Builtin); ok && b.Name() == "append" && len(x.Call.Args) > 0 && fromField(x.Call.Args[0]) {
+						bad = fmt.Sprintf("%s appends onto (a reslice of) a slice of the value", r.P.InstrPos(ins))
+					}
+				}
+			})
+		}
+		h.Check(bad == "", name, r.P.Pos(fn.Pos()), "the value is only read", "serialising modifies the value it serialises ("+bad+"): the caller's slice — shared between the per-block commits of one transaction — is rewritten while it is still in use")
+	}
+}
+
+// dependsOnSlice: v is a slice value that shares its backing array with a value accepted by pred:
+// the value itself, a reslice of it, a φ of such, or a local variable holding one.
+func dependsOnSlice(v ssa.Value, pred func(ssa.Value) bool, depth int) bool {
+	if depth < 0 || v == nil {
+		return false
+	}
+	if pred(v) {
+		return true
+	}
+	switch x := v.(type) {
+	case *ssa.Slice:
+		return dependsOnSlice(x.X, pred, depth-1)
+	case *ssa.ChangeType:
+		return dependsOnSlice(x.X, pred, depth-1)
+	case *ssa.Phi:
+		for _, e := range x.Edges {
+			if e != v && dependsOnSlice(e, pred, depth-1) {
+				return true
+			}
+		}
+	case *ssa.Call:
+		// append(s, …) shares with s while capacity lasts
+		if b, ok := x.Call.Value.(*ssa.Builtin); ok && b.Name() == "append" && len(x.Call.Args) > 0 {
+			return dependsOnSlice(x.Call.Args[0], pred, depth-1)
+		}
+	case *ssa.UnOp:
+		if n := norm1(x); n != nil {
+			return dependsOnSlice(n, pred, depth-1)
+		}
+		// a variable assigned several times (captured by a closure, so kept in a cell): any of the
+		// values stored into it
+		if x.Op == token.MUL {
+			var cell ssa.Value
+			switch a := x.X.(type) {
+			case *ssa.Alloc:
+				cell = a
+			case *ssa.FreeVar:
+				cell = freeVarValue1(a)
+			}
+			if al, ok := cell.(*ssa.Alloc); ok {
+				for _, ref := range *al.Referrers() {
+					if st, isSt := ref.(*ssa.Store); isSt && st.Addr == ssa.Value(al) && dependsOnSlice(st.Val, pred, depth-2) {
+						return true
+					}
+				}
+			}
+		}
+	}
+	return false
+}
+
+// ruleVacuumVisitsEveryRow (C17.guard/…/every-row): the cleanup decides for every row it is handed
+// whether the row is due: the per-row callback evaluates the expiry test on every path (no budget,
+// counter or other early exit in front of it). The converse of C17.guard's "deletes only what is
+// due": what is due is deleted, however many rows come before it.
+func ruleVacuumVisitsEveryRow(r *Report) {
+	h := r.Rule("C17.guard", "P", "", 4)
+	vac := r.Anchor("(*column.Collection).vacuum")
+	if vac == nil {
+		return
+	}
+	var rowFn *ssa.Function
+	var test ssa.Instruction
+	for _, f := range deepFuncs(vac) {
+		for _, c := range callsTo(f, false, "(column.rwTTL).ExpiresAt", "(column.rwTTL).TTL") {
+			rowFn, test = f, c
+		}
+	}
+	if rowFn == nil {
+		h.Unknown("(*column.Collection).vacuum/every-row", r.P.Pos(vac.Pos()), "the expiry test of the cleanup's per-row callback was not found")
+		return
+	}
+	// no return of the per-row function is reachable from its entry without passing the test
+	ok := true
+	var exit ssa.Instruction
+	if test.Block() != rowFn.Blocks[0] {
+		for _, ret := range returnsOf(rowFn) {
+			if ret.Block() == rowFn.Blocks[0] || reachAvoiding(rowFn.Blocks[0], ret.Block(), func(x *ssa.BasicBlock) bool { return x == test.Block() }, nil) {
+				ok, exit = false, ret
+			}
+		}
+	}
+	pos := r.P.InstrPos(test)
+	if exit != nil {
+		pos = r.P.InstrPos(exit)
+	}
+	h.Check(ok, "(*column.Collection).vacuum/every-row", pos, "the expiry test is evaluated for every row the cleanup visits", "the cleanup's per-row callback can return before it has tested whether the row is due (a budget, a counter, an early exit): rows behind the point where it starts doing so are never examined and never expire")
+}
+
+// ruleSnapshotComplete (C07.complete): a column's Snapshot writes every row that is present in the
+// block. In each Snapshot implementation that iterates the block's presence bitmap, the per-row
+// callback writes to the destination buffer on every path: presence and value are both rebuilt
+// from this Put stream on restore (and by the back-fill of an index created later), so a row that
+// is skipped because of its *value* — a zero, an empty string — comes back absent.
+func ruleSnapshotComplete(r *Report) {
+	h := r.Rule("C07.complete", "P", "every Snapshot implementation that iterates the presence bitmap of the block writes one operation for every present row: the per-row callback reaches a write to the destination buffer on every path (no value-dependent skip)", 3)
+	var fns []*ssa.Function
+	for fn := range r.P.modFunc {
+		if fn.Origin() != nil || fn.Parent() != nil || fn.Synthetic != "" || fn.Name() != "Snapshot" || !r.P.inColumnPkg(fn) {
+			continue
+		}
+		if fn.Signature.Recv() == nil || len(fn.Params) != 3 || !isNamed(fn.Params[2].Type(), CommitPath, "Buffer") {
+			continue
+		}
+		fns = append(fns, fn)
+	}
+	sort.Slice(fns, func(i, j int) bool { return fnName(fns[i]) < fnName(fns[j]) })
+	isWrite := func(ins ssa.Instruction) bool {
+		cc, _, isGo := callCommon(ins)
+		if cc == nil || isGo {
+			return false
+		}
+		if sc := cc.StaticCallee(); sc != nil {
+			if sc.Signature.Recv() != nil && isNamed(sc.Signature.Recv().Type(), CommitPath, "Buffer") && strings.HasPrefix(sc.Name(), "Put") {
+				return true
+			}
+			return false
+		}
+		// the numeric kinds write through the function stored in the column (c.write(dst, idx, v))
+		if fr, ok := loadedField(cc.Value); ok && fr.Field == "write" {
+			return true
+		}
+		return false
+	}
+	for _, fn := range fns {
+		for _, g := range deepFuncs(fn) {
+			for _, rc := range callsWhere(g, func(_ ssa.Instruction, cc *ssa.CallCommon) bool {
+				return methodOn(cc, "github.com/kelindar/bitmap", "Bitmap", "Range") && len(cc.Args) == 2 && isStorageFill(cc.Args[0])
+			}) {
+				cc, _, _ := callCommon(rc)
+				row := asFunc(norm(cc.Args[1]))
+				if row == nil || row.Blocks == nil {
+					h.Unknown(fnName(fn)+"/rows", r.P.InstrPos(rc), "per-row callback of the presence iteration not recognised")
+					continue
+				}
+				row = originOf(row)
+				ok, exit := mustPassToReturn(row.Blocks[0], 0, isWrite)
+				pos := r.P.InstrPos(rc)
+				if exit != nil {
+					pos = r.P.InstrPos(exit)
+				}
+				h.Check(ok, fnName(fn)+"/rows", pos, "one operation written for every present row", "the per-row callback of this Snapshot can return without writing the row to the destination buffer (a value-dependent skip): on restore — and when an index is back-filled — such rows come back without their presence bit and without their value")
+			}
+		}
+	}
 }
